@@ -101,6 +101,9 @@ func (lc *LogicContext) makeSetupUri(uri string, aControl string) string {
 
 func ParseSdp2LogicContext(b []byte) (LogicContext, error) {
 	var ret LogicContext
+	// the zero value of AvPacketPt is AvPacketPtG711U: a missing audio (video) section must not read as G711U
+	ret.audioPayloadTypeBase = base.AvPacketPtUnknown
+	ret.videoPayloadTypeBase = base.AvPacketPtUnknown
 
 	c, err := ParseSdp2RawContext(b)
 	if err != nil {
